@@ -134,7 +134,8 @@ static carquet_status_t decode_levels_rle(
     int64_t decoded = carquet_rle_decode_levels(
         data, data_size, bit_width, levels, num_values);
 
-    if (decoded < 0) {
+    /* A level block that ends early leaves the rest of `levels` unset */
+    if (decoded < num_values) {
         return CARQUET_ERROR_DECODE;
     }
 
@@ -1418,9 +1419,14 @@ carquet_status_t carquet_read_next_page(
 
     /* Calculate how many values to return from the current page */
     int32_t available = reader->page_num_values - reader->page_values_read;
-    int32_t to_copy = (int32_t)max_values;
+    int32_t to_copy = max_values > INT32_MAX ? INT32_MAX : (int32_t)max_values;
     if (to_copy > available) {
         to_copy = available;
+    }
+    /* Pages may hold more values than the chunk metadata announced; never hand
+     * out more rows than remaining() promised */
+    if ((int64_t)to_copy > reader->values_remaining) {
+        to_copy = reader->values_remaining > 0 ? (int32_t)reader->values_remaining : 0;
     }
 
     /* Copy values from decoded buffers. Levels are stored per row, but the
